@@ -27,3 +27,23 @@ pub fn systemtime_now() -> std::time::SystemTime {
 pub fn cpuid_zero(_leaf: u32, _sub: u32) -> std::arch::x86_64::CpuidResult {
     std::arch::x86_64::CpuidResult { eax: 0, ebx: 0, ecx: 0, edx: 0 }
 }
+
+// ---- thread identity -------------------------------------------------------------------------
+// `std::thread::current()` cannot be compiled by Kani (thread-local init + pthread keys). zipora only
+// ever calls `.id()` on the result, so: a leaked fake handle (an `Arc` header with a huge strong
+// count, so clone/drop never free it) and a `Thread::id` that returns the harness-controlled id.
+pub static mut CUR_TID: u64 = 1;
+static mut FAKE_THREAD: [usize; 32] = {
+    let mut a = [0usize; 32];
+    a[0] = 1 << 40;
+    a[1] = 1;
+    a
+};
+pub fn thread_current() -> std::thread::Thread {
+    // SAFETY: `Thread` is a single non-null pointer to an Arc allocation; only its counts are touched.
+    unsafe { core::mem::transmute::<*const usize, std::thread::Thread>(core::ptr::addr_of!(FAKE_THREAD) as *const usize) }
+}
+pub fn thread_id(_t: &std::thread::Thread) -> std::thread::ThreadId {
+    // SAFETY: ThreadId is a NonZero<u64>; CUR_TID is never 0.
+    unsafe { core::mem::transmute::<u64, std::thread::ThreadId>(CUR_TID) }
+}
